@@ -771,6 +771,20 @@ theorem C08_result_conforms (W : World N V T) (ret : Option T) (r : V) :
   rw [convBy_eq]
   cases Spec.convO W ret r <;> rfl
 
+/-! ### every way a `Param` can be attached -/
+
+/-- **the Param is found wherever it stands in the metadata**: `Annotated[T, "doc", …, Param(...), …]` and a nested
+`Annotated[Annotated[T, "doc"], Param(...)]` (which `typing` flattens to the same list) declare the same field as
+`Annotated[T, Param(...)]` — its constraints, alias and alias_from apply -/
+theorem C08_annotated_param_found {S : Type} (docs rest : List (Meta S)) (s : S)
+    (h : ∀ m ∈ docs, m = Meta.other) : findParam (docs ++ .param s :: rest) = some s := by
+  induction docs with
+  | nil => rfl
+  | cons m docs ih =>
+    have hm : m = Meta.other := h m (by simp)
+    subst hm
+    simpa [findParam] using ih (fun x hx => h x (by simp [hx]))
+
 /-! ### the decorator's Options and `**kwargs` -/
 
 /-- **the declaration wins**: whatever `addition` the decorator's Options carry — unset, False, True, a type, or the
